@@ -132,6 +132,27 @@ func (im *impl) exec(op string) string {
 				return "ok"
 			case "root":
 				return fmt.Sprintf("root=%x", im.sdb.IntermediateRoot(false))
+			case "root1":
+				return fmt.Sprintf("root=%x", im.sdb.IntermediateRoot(true))
+			case "peek": // reads only: the object is loaded into the cache, nothing is changed
+				im.sdb.GetBalance(addr(a))
+				im.sdb.GetNonce(addr(a))
+				im.sdb.GetCodeSize(addr(a))
+				return "ok"
+			case "commit1": // what the application does for every block: Commit(deleteEmptyObjects = true)
+				root, err := im.sdb.Commit(true)
+				if err != nil {
+					return "error " + err.Error()
+				}
+				if err := im.sdb.Database().TrieDB().Commit(root, false); err != nil {
+					return "error " + err.Error()
+				}
+				db := im.sdb.Database()
+				im.sdb, err = state.New(root, db)
+				if err != nil {
+					return "error " + err.Error()
+				}
+				return fmt.Sprintf("root=%x", root)
 			case "commit":
 				root, err := im.sdb.Commit(false)
 				if err != nil {
